@@ -264,12 +264,21 @@ def json_object_is_row(ctx, rule='R16j'):
         okg = len(props) == 1 and isinstance(props[0], ast.Name)
         if okg:
             pn = props[0].id
-            loops = [l for l in ast.walk(gw.node) if isinstance(l, ast.For) and match_expr('%s.items()' % gp, l.iter) is not None
-                     and isinstance(l.target, ast.Tuple) and len(l.target.elts) == 2 and all(isinstance(t, ast.Name) for t in l.target.elts)]
+            from sa.normalize import resolve_here as _rh
+            loops = [l for l in ast.walk(gw.node) if isinstance(l, ast.For) and
+                     ((match_expr('%s.items()' % gp, l.iter) is not None and isinstance(l.target, ast.Tuple) and len(l.target.elts) == 2
+                       and all(isinstance(t, ast.Name) for t in l.target.elts)) or
+                      ((match_expr('%s.keys()' % gp, l.iter) is not None or pseudo(l.iter) == gp) and isinstance(l.target, ast.Name)))]
             stores = [a for a in ast.walk(gw.node) if isinstance(a, ast.Assign) and isinstance(a.targets[0], ast.Subscript)
                       and pseudo(a.targets[0].value) == pn]
-            okg = len(loops) == 1 and len(stores) == 1 and any(stores[0] is x for x in ast.walk(loops[0])) and \
-                pseudo(stores[0].targets[0].slice) == loops[0].target.elts[0].id and pseudo(stores[0].value) == loops[0].target.elts[1].id
+            okg = len(loops) == 1 and len(stores) == 1 and any(stores[0] is x for x in ast.walk(loops[0]))
+            if okg:
+                lp_ = loops[0]
+                kv = lp_.target.elts[0].id if isinstance(lp_.target, ast.Tuple) else lp_.target.id
+                vv = lp_.target.elts[1].id if isinstance(lp_.target, ast.Tuple) else None
+                val_ = stores[0].value
+                okg = pseudo(stores[0].targets[0].slice) == kv and \
+                    ((vv is not None and pseudo(val_) == vv) or u(_rh(val_)) == '%s[%s]' % (gp, kv))
         run.check(okg, rule, gw.where, g.qualname, 'properties[k] = v for the entries of the transformed row (geometry apart)',
                   'the properties of a GeoJSON feature are not the entries of the transformed row under their field names')
 
